@@ -1,5 +1,6 @@
 import IRModel.Props.Wrapper
 import IRModel.Lemmas.EngineC
+import IRModel.Lemmas.EngineCp
 /-!
 # The wrapper-level properties as statements about one protocol
 
@@ -81,11 +82,13 @@ inductive EngineObl (t : Tables) (tol : Match.Tol) : Prop
   | A (h : wfAll t tol = true)
   | B (h : wfAllB t tol = true)
   | C (h : wfAllC t tol = true)
+  | Cp (h : wfAllCp t tol = true)
 
 theorem EngineObl.rt {t : Tables} {tol : Match.Tol} (htol : tol.ok) : EngineObl t tol → EngineRT t tol
   | .A h => engineRT_A t tol htol h
   | .B h => engineRT_B t tol htol h
   | .C h => engineRT_C t tol htol h
+  | .Cp h => engineRT_Cp t tol htol h
 
 theorem C01_holds (t : Tables) (w : Wrapper) (tol : Match.Tol) (htol : tol.ok) (he : EngineObl t tol)
     (hok : c01OK t w = true) : C01Holds t w tol :=
